@@ -89,3 +89,69 @@ pub mod clock {
         }
     }
 }
+
+/// Device I/O observer and fault decisions. With no observer installed every call is one
+/// relaxed load.
+pub mod io {
+    use std::sync::atomic::{AtomicBool, Ordering};
+    use std::sync::{Arc, RwLock};
+
+    #[derive(Clone, Copy, Debug, PartialEq, Eq)]
+    pub enum Kind {
+        Write,
+        RingWrite,
+        Fsync,
+        Read,
+    }
+
+    #[derive(Clone, Copy, Debug, PartialEq, Eq)]
+    pub enum Decision {
+        Proceed,
+        /// fail the call without touching the device
+        FailBefore,
+        /// perform the call, then report failure
+        FailAfter,
+    }
+
+    pub trait Observer: Send + Sync {
+        /// `fd` identifies the open device; `sector` is a block number; `data` is empty for
+        /// fsync and for reads carries nothing (length in `len`).
+        fn event(&self, kind: Kind, fd: i32, sector: u64, len: usize, data: &[u8]) -> Decision;
+    }
+
+    static ARMED: AtomicBool = AtomicBool::new(false);
+    static NO_RING: AtomicBool = AtomicBool::new(false);
+    static OBSERVER: RwLock<Option<Arc<dyn Observer>>> = RwLock::new(None);
+
+    pub fn set_observer(observer: Option<Arc<dyn Observer>>) {
+        let armed = observer.is_some();
+        *OBSERVER.write().unwrap_or_else(|p| p.into_inner()) = observer;
+        ARMED.store(armed, Ordering::SeqCst);
+    }
+
+    /// Make `DiskIO::new` skip io_uring (forces the synchronous write path).
+    pub fn disable_ring(disabled: bool) {
+        NO_RING.store(disabled, Ordering::SeqCst);
+    }
+
+    #[inline]
+    pub(crate) fn ring_disabled() -> bool {
+        NO_RING.load(Ordering::Relaxed)
+    }
+
+    #[inline]
+    pub(crate) fn event(kind: Kind, fd: i32, sector: u64, len: usize, data: &[u8]) -> Decision {
+        if !ARMED.load(Ordering::Relaxed) {
+            return Decision::Proceed;
+        }
+        let observer = OBSERVER.read().unwrap_or_else(|p| p.into_inner()).clone();
+        match observer {
+            Some(observer) => observer.event(kind, fd, sector, len, data),
+            None => Decision::Proceed,
+        }
+    }
+
+    pub(crate) fn injected() -> crate::error::FeoxError {
+        crate::error::FeoxError::IoError(std::io::Error::other("verif: injected I/O failure"))
+    }
+}
